@@ -54,6 +54,8 @@ def generate(rng, tier, shard, nshards):
             w = gen.wcs_spec(rng, conformal=True)
         cls = rng.choice(CLASSES)
         ang = rng.choice([0, 90, 180, 270]) + rng.choice([-1, 1]) * rng.uniform(5, 85) + 360 * rng.randint(-2, 2)
+        if rng.random() < 0.15:
+            ang = rng.choice([0, 0, 0.0, 90, 180, 270, -90, 360])          # exactly axis-aligned on the sky (0 is the constructor default)
         unit = rng.choice(['deg', 'rad', 'arcmin'])
         yield {'lane': cls, 'cls': cls, 'wcs': w, 'dx': rng.uniform(-300, 300), 'dy': rng.uniform(-300, 300),
                'a_px': rng.uniform(1, 50), 'ratio': rng.uniform(1.25, 4.0), 'wide': rng.random() < 0.5,
